@@ -38,7 +38,7 @@ func c20Corpus(rng *rand.Rand, extra int) []string {
 	}
 	no := nodeObj.Object().String()
 	c := []string{
-		fmt.Sprintf("SELECT ?x FROM ?g1 WHERE { %s %s %s AS ?x };", s, p, o),                  // Exist
+		fmt.Sprintf("SELECT ?x FROM ?g1 WHERE { %s %s %s AS ?x };", s, p, o),                   // Exist
 		fmt.Sprintf("SELECT ?o FROM ?g1, ?g2 WHERE { %s %s ?o };", s, p),                       // Objects
 		fmt.Sprintf("SELECT ?p FROM ?g1 WHERE { %s ?p %s };", s, o),                            // PredicatesForSubjectAndObject
 		fmt.Sprintf("SELECT ?s FROM ?g1, ?g2 WHERE { ?s %s %s };", p, o),                       // Subjects
